@@ -12,8 +12,9 @@ from harness import c10_gen, c10_check, c10_model, ops_common as oc
 PROP = 'C10'
 MODEL_MODULES = ['TenpyModel.Util.J', 'TenpyModel.Ops.Sym', 'TenpyModel.Ops.Terms', 'TenpyModel.Ops.Graph', 'TenpyModel.Ops.GraphSpec',
                  'TenpyModel.Ops.Bond', 'TenpyModel.Ops.Model', 'TenpyModel.Ops.Dense']
-PROPS_MODULES = ['TenpyModel.C10.Props']
-LEAN_MODULES = ['TenpyModel.C10.Props']
+PROPS_MODULES = ['TenpyModel.C10.Props',
+                 'TenpyModel.C10.Props2']
+LEAN_MODULES = PROPS_MODULES
 LEVEL = 'proof'
 BUDGET = {'quick': 200, 'thorough': 1500}
 RULE = ('coupling models: random lattice (Chain/Ladder/Square/Honeycomb, <=8 sites finite, unit cell <=4 infinite; '
